@@ -15,6 +15,65 @@ DOC = "identity_iota_core::document::iota_document::IotaDocument"
 DID_ACC = re.compile(r"(DID::(method|method_id)|CoreDID::(method|method_id)|CoreDocument::id)$")
 
 
+def check_identity_traits(F, r3, ID, traits=("core::cmp::PartialEq", "core::cmp::Eq", "core::cmp::PartialOrd", "core::cmp::Ord", "core::hash::Hash")):
+    """the identity traits of the one-field newtype ID are the derived (field-wise) ones, or hand-written ones that — on their decision
+    tables — use exactly the one field and nothing else"""
+    LBL = ID.rsplit("::", 1)[-1]
+    FN = [f.get("name") or str(i_) for i_, f in enumerate(F.adt_fields(ID) or [])] or ["0"]
+    for tr in traits:
+        imps = [i for i in F.impls_of(tr, ID) if not i["trait"]["args"] or i["trait"]["args"] == [ID]]
+        ok = len(imps) == 1 and imps[0]["derived"]
+        tn = tr.rsplit("::", 1)[-1]
+        if not ok and len(imps) == 1 and (tn == "Hash" or (tn == "PartialOrd" and len(FN) == 1)):
+            # hand-written: partial_cmp = Some(self.cmp(other)) or the field's own partial_cmp; hash feeds exactly the field to the hasher
+            import sibling as SB
+            mname = "partial_cmp" if tn == "PartialOrd" else "hash"
+            mfns = F.find(r"^<%s as %s(<.*>)?>::%s$" % (re.escape(ID), re.escape(tr), mname))
+            if len(mfns) == 1 and F.hir(mfns[0]) is not None:
+                mfn = mfns[0]
+                S0, O0 = ("param", "s" + FN[0]), ("param", "o" + FN[0])
+                sv, ov = sym.St(ID, {k_: sym.Sym(("param", "s" + k_)) for k_ in FN}), sym.St(ID, {k_: sym.Sym(("param", "o" + k_)) for k_ in FN})
+                if tn == "PartialOrd":
+                    ps = SB.explore(F, mfn, [sv, ov], opaque=r"Ord::cmp$|Ord>::cmp$|PartialOrd::partial_cmp$|PartialOrd(<.*>)?>::partial_cmp$", rule=r3)
+                    good = bool(ps)
+                    for q in ps:
+                        cs = q.calls(r"::cmp$|::partial_cmp$")
+                        one = len(cs) == 1 and ((SR.pure(cs[0].args[0], S0) and SR.pure(cs[0].args[1], O0)) or
+                                                (sym.term(cs[0].args[0]) == sym.term(sv) and sym.term(cs[0].args[1]) == sym.term(ov)))
+                        rt = sym.term(q.ret)
+                        res_ok = one and (SR.pure(rt, cs[0].result.t) or (rt[:2] == ("ctor", "Some") and SR.pure(rt[2], cs[0].result.t)))
+                        good = good and res_ok and not q.decisions
+                else:
+                    ps = SB.explore(F, mfn, [sv, sym.Sym(("param", "state"))], opaque=r"Hash::hash$|Hash>::hash$|Hasher::write\w*$|Hasher>::write\w*$", rule=r3)
+                    good = bool(ps)
+                    for q in ps:
+                        # what is fed to the hasher: `field.hash(state)` or, for integers, `state.write_uN(field)` (what their Hash impl does)
+                        hs = [h_.args[0] for h_ in q.calls(r"::hash$")] + [h_.args[1] for h_ in q.calls(r"Hasher(<.*>)?>?::write\w*$") if len(h_.args) > 1]
+                        good = good and len(hs) == len(FN) and all(any(SR.pure(h_, ("param", "s" + k_)) for h_ in hs) for k_ in FN) and not q.decisions
+                r3.site("impl %s for %s hand-written, %s: %s" % (tn, LBL, "the comparison of the one field (or Some(cmp))" if tn == "PartialOrd" else "hashes exactly the one field", good))
+                if good:
+                    continue
+        if not ok and len(imps) == 1 and tn in ("PartialEq", "Ord"):
+            # a hand-written impl: accepted when it is, on its decision table, the comparison of the one (normalised) field and nothing else
+            import sibling as SB
+            mfns = F.find(r"^<%s as %s(<.*>)?>::%s$" % (re.escape(ID), re.escape(tr), "eq" if tn == "PartialEq" else "cmp"))
+            mfn = mfns[0] if len(mfns) == 1 else None
+            if mfn is not None and F.hir(mfn) is not None:
+                def idv(p_):
+                    return sym.St(ID, {k_: sym.Sym(("param", p_ + k_)) for k_ in FN})
+                pairs_ = [(k_, ("param", "s" + k_), ("param", "o" + k_)) for k_ in FN]
+                before = len(r3.fails)
+                if tn == "PartialEq":
+                    ok = SB.check_eq(r3, mfn, SB.explore(F, mfn, [idv("s"), idv("o")], rule=r3), pairs_) and len(r3.fails) == before
+                else:
+                    ok = SB.check_cmp(r3, mfn, SB.explore(F, mfn, [idv("s"), idv("o")], opaque=r"Ord::cmp$|Ord>::cmp$", rule=r3), pairs_) and len(r3.fails) == before
+                r3.site("impl %s for %s hand-written, compares exactly the one field: %s" % (tn, LBL, ok))
+                if ok:
+                    continue
+        r3.site("impl %s for %s derived: %s" % (tn, LBL, ok))
+        r3.require(ok, (ID, tn, "derived"), "%s for %s is neither the derived (field-wise) implementation nor a hand-written one that uses exactly its one field" % (tn, LBL))
+
+
 def run(F, R, tier):
     R.undecided += ["prefix_hex decode/encode behaviour (external crate)", "str::to_lowercase on non-ASCII input (rejected later by the DID grammar)"]
 
@@ -71,14 +130,19 @@ def run(F, R, tier):
         SR.require_on_success(r1, tabp, "try_from_core(CoreDID::parse(lowercase(input))?)", folded, key=(fn, "lowercase", "path"),
                               what="the result is try_from_core of CoreDID::parse ✓ applied to the lower-cased input")
         r1.site("IotaDID::parse: %d accepting / %d rejecting path(s)" % (len(tabp.ok()), len(tabp.err())))
+    GATE_RX = r"IotaDID::(parse|try_from_core)$|IotaDID as core::convert::TryFrom<identity_did::did::CoreDID>>::try_from$"
     for f_ in F.find(r"^<identity_iota_core::did::iota_did::IotaDID as core::(convert::TryFrom<.*>|str::traits::FromStr)>::(try_from|from_str)$"):
-        hh = F.hir(f_)
-        env = H.Env(hh)
-        for n, oc in H.exits(hh):
-            oo = H.origins(n, env)
-            ok = bool(oo) and all(o[0] == "call" and (o[1] in (ID + "::parse", ID + "::try_from_core") or re.search(r"IotaDID as core::convert::TryFrom<identity_did::did::CoreDID>>::try_from$|TryFrom::try_from$", o[1])) for o in oo)
-            r1.site("%s → %s" % (L.short(f_), sorted(L.short(o[1]) for o in oo if o[0] == "call")))
-            r1.require(ok, (f_, "via-gate"), "%s does not delegate to parse/try_from_core" % L.short(f_))
+        # on the decision table: whatever the conversion accepts is what one of the gates (parse, try_from_core, TryFrom<CoreDID>) returned
+        tabg = SR.Table(F, f_, opaque=GATE_RX + r"|CoreDID as core::convert::TryFrom<.*>>::try_from$|CoreDID::(parse|check_validity)$", rule=r1)
+        oks = tabg.ok()
+        ok = bool(oks) or not tabg.paths
+        via = set()
+        for q in oks:
+            gs = [e for e in q.calls(GATE_RX) if q.succeeded(e) is not False and (SR.pure(q.ret, e.result.t) or SR.derives(q.ret, e.result.t))]
+            via |= {L.short(e.fn) for e in gs}
+            ok = ok and bool(gs)
+        r1.site("%s → %s" % (L.short(f_), sorted(via)))
+        r1.require(ok, (f_, "via-gate"), "%s does not delegate to parse/try_from_core" % L.short(f_))
     # "without path, query or fragment" is inherited from the CoreDID gate (C10-R1): re-established here on the same facts
     CDID = "identity_did::did::CoreDID"
     for (p, bi, s_) in F.constructions(CDID):
@@ -309,57 +373,7 @@ def run(F, R, tier):
     fs = F.adt_fields(ID)
     if r3.anchor(fs, ID):
         r3.require(len(fs) == 1 and fs[0]["ty"].endswith("CoreDID") and fs[0]["vis"] != "pub", (ID, "field"), "IotaDID is not a private newtype over CoreDID: %s" % fs)
-    for tr in ("core::cmp::PartialEq", "core::cmp::Eq", "core::cmp::PartialOrd", "core::cmp::Ord", "core::hash::Hash"):
-        imps = [i for i in F.impls_of(tr, ID) if not i["trait"]["args"] or i["trait"]["args"] == [ID]]
-        ok = len(imps) == 1 and imps[0]["derived"]
-        tn = tr.rsplit("::", 1)[-1]
-        if not ok and len(imps) == 1 and tn in ("PartialOrd", "Hash"):
-            # hand-written: partial_cmp = Some(self.cmp(other)) or the field's own partial_cmp; hash feeds exactly the field to the hasher
-            import sibling as SB
-            mname = "partial_cmp" if tn == "PartialOrd" else "hash"
-            mfns = F.find(r"^<%s as %s(<.*>)?>::%s$" % (re.escape(ID), re.escape(tr), mname))
-            if len(mfns) == 1 and F.hir(mfns[0]) is not None:
-                mfn = mfns[0]
-                S0, O0 = ("param", "s0"), ("param", "o0")
-                sv, ov = sym.St(ID, {"0": sym.Sym(S0)}), sym.St(ID, {"0": sym.Sym(O0)})
-                if tn == "PartialOrd":
-                    ps = SB.explore(F, mfn, [sv, ov], opaque=r"Ord::cmp$|Ord>::cmp$|PartialOrd::partial_cmp$|PartialOrd(<.*>)?>::partial_cmp$", rule=r3)
-                    good = bool(ps)
-                    for q in ps:
-                        cs = q.calls(r"::cmp$|::partial_cmp$")
-                        one = len(cs) == 1 and ((SR.pure(cs[0].args[0], S0) and SR.pure(cs[0].args[1], O0)) or
-                                                (sym.term(cs[0].args[0]) == sym.term(sv) and sym.term(cs[0].args[1]) == sym.term(ov)))
-                        rt = sym.term(q.ret)
-                        res_ok = one and (SR.pure(rt, cs[0].result.t) or (rt[:2] == ("ctor", "Some") and SR.pure(rt[2], cs[0].result.t)))
-                        good = good and res_ok and not q.decisions
-                else:
-                    ps = SB.explore(F, mfn, [sv, sym.Sym(("param", "state"))], opaque=r"Hash::hash$|Hash>::hash$", rule=r3)
-                    good = bool(ps)
-                    for q in ps:
-                        hs = q.calls(r"::hash$")
-                        good = good and len(hs) == 1 and SR.pure(hs[0].args[0], S0) and not q.decisions
-                r3.site("impl %s for IotaDID hand-written, %s: %s" % (tn, "the comparison of the CoreDID field (or Some(cmp))" if tn == "PartialOrd" else "hashes exactly the CoreDID field", good))
-                if good:
-                    continue
-        if not ok and len(imps) == 1 and tn in ("PartialEq", "Ord"):
-            # a hand-written impl: accepted when it is, on its decision table, the comparison of the one (normalised) field and nothing else
-            import sibling as SB
-            mfns = F.find(r"^<%s as %s(<.*>)?>::%s$" % (re.escape(ID), re.escape(tr), "eq" if tn == "PartialEq" else "cmp"))
-            mfn = mfns[0] if len(mfns) == 1 else None
-            if mfn is not None and F.hir(mfn) is not None:
-                def idv(p_):
-                    return sym.St(ID, {"0": sym.Sym(("param", p_ + "0"))})
-                pairs_ = [("0", ("param", "s0"), ("param", "o0"))]
-                before = len(r3.fails)
-                if tn == "PartialEq":
-                    ok = SB.check_eq(r3, mfn, SB.explore(F, mfn, [idv("s"), idv("o")], rule=r3), pairs_) and len(r3.fails) == before
-                else:
-                    ok = SB.check_cmp(r3, mfn, SB.explore(F, mfn, [idv("s"), idv("o")], opaque=r"Ord::cmp$|Ord>::cmp$", rule=r3), pairs_) and len(r3.fails) == before
-                r3.site("impl %s for IotaDID hand-written, compares exactly the CoreDID field: %s" % (tn, ok))
-                if ok:
-                    continue
-        r3.site("impl %s for IotaDID derived: %s" % (tn, ok))
-        r3.require(ok, (ID, tn, "derived"), "%s for IotaDID is neither the derived (field-wise) implementation nor a hand-written one that uses exactly the CoreDID field" % tn)
+    check_identity_traits(F, r3, ID)
     a = F.ast_item(ID)
     if r3.anchor(a, ID + " (ast)"):
         attrs = " ".join(a["attrs"])
